@@ -1,0 +1,16 @@
+//go:build verif
+
+package edwards25519
+
+// Hooks for the /verif correspondence harness (compiled only with -tags verif).
+
+// VerifSignedRadix16 returns the 64 signed radix-16 digits of a scalar (reduced modulo the group
+// order first), as the fixed-base and variable-base multiplications see them.
+func VerifSignedRadix16(x []byte) [64]int8 {
+	return NewScalar().SetBytes(x).signedRadix16()
+}
+
+// VerifNonAdjacentForm returns the width-w non-adjacent form of a scalar (reduced first).
+func VerifNonAdjacentForm(x []byte, w uint) [256]int8 {
+	return NewScalar().SetBytes(x).nonAdjacentForm(w)
+}
